@@ -397,7 +397,8 @@ func (index *uniqueIndex) CheckIntegrity(ctx MutateContext, fix bool, errorSink 
 	for entityCursor := index.symbol.GetStore().IterateValidIds(tx, ast.BoolNodeTrue); entityCursor.IsValid(); entityCursor.Next() {
 		id := entityCursor.Current()
 		fieldType, fieldVal := index.symbol.Eval(tx, id)
-		if fieldType == TypeNil {
+		// an empty value is treated like nil when the index is maintained: it is never indexed
+		if fieldType == TypeNil || len(fieldVal) == 0 {
 			if !index.nullable {
 				errorSink(errors.Errorf("entity with id %s has non-nillable unique index %v.%v, but field has nil value, unable to fix",
 					string(id), store.GetEntityType(), index.symbol.GetName()), false)
